@@ -178,9 +178,11 @@ def verify_contract(reg: Registry, con: Contract, timeout_ms: int = 10000, secon
         if getattr(p, "entry_bound", None) is not None and p.obls:
             r = check_obligation(p.pc, z3.BoolVal(False), 3000, second=False)
             if r.status == "unsat":
-                res.canary_ok = False
+                # a late-detected dead path (its obligations hold trivially): harmless unless *every* path is like that
                 res.notes.append("vacuous path: " + ",".join(f"{l}={d}" for l, d in p.decision_labels[-6:]))
-            elif res.canary_ok is None:
+                if res.canary_ok is None:
+                    res.canary_ok = False
+            else:
                 res.canary_ok = True
     res.secs = time.time() - t_start
     return res
